@@ -23,6 +23,7 @@ sys.path.insert(0, os.path.dirname(os.path.dirname(os.path.abspath(__file__))))
 import vlib  # noqa: E402
 
 COMPS = "ABCD"
+KNOWN_OUTSIDE_KEY = "check-outside-archetype"
 HARNESS = "version_driver"
 NULL_VER = 4294967295
 
@@ -74,13 +75,13 @@ def clean_lines(text):
 # chunk-size specification (the property's wording, not the code's fold)
 
 def spec_chunk_size(default, fns, mask):
-    """fns: list of (mask set, min, max). Returns ('ok', size) or ('error', max, min).
-    Applying functions are contract-respecting (1 <= min <= max)."""
+    """fns: list of (mask set, min, max); min = 0 / max = 0 mean "no minimum" / "no maximum".
+    Returns ('ok', size) or ('error', max, min)."""
     app = [(mn, mx) for (m, mn, mx) in fns if m <= mset(mask)]
     lo = max([mn for (mn, _) in app], default=0)
     his = [mx for (_, mx) in app if mx != 0]
     hi = min(his) if his else 0
-    if hi < lo:      # with every applying max >= 1 this is "largest minimum exceeds smallest maximum"
+    if hi and hi < lo:      # contradictory: the largest minimum exceeds the smallest maximum
         return ("error", hi, lo)
     c = max(default, lo)
     if hi:
@@ -138,6 +139,9 @@ class Oracle:
         self.c07 = []        # (op index, message)
         self.c11 = []
         self.sanity = []     # oracle bookkeeping disagrees with the implementation (tie-level)
+        # open known finding key=check-outside-archetype: a job with a non-empty check mask re-selects an
+        # untouched chunk of an archetype that has NONE of the checked components
+        self.known_outside = []
         self.stats = {"runs": 0, "runs_work": 0, "runs_empty": 0, "runs_quiescent_checked": 0, "runs_quiescent_with_entities": 0,
                       "pending_checked": 0, "relocations": 0, "arch_created": 0, "rejections": 0,
                       "chunks_processed": 0, "partial_last_chunk_processed": 0, "writes": 0,
@@ -329,10 +333,14 @@ class Oracle:
                 continue
             k = a["ents"].index(e) // a["cs"]
             chunks.add((mask, k))
-            if J["check"] & mset(mask) and (mask, k) not in self.touched[j]:
-                self.c11.append((i, "job %d (check=%s) processed entity %d in version chunk %d of archetype %s "
-                                    "(chunk size %d) in which nothing was written, arrived or departed since it "
-                                    "last processed it" % (j, norm(J["check"]), e, k, mask, a["cs"])))
+            if J["check"] and (mask, k) not in self.touched[j]:
+                msg = ("job %d (req=%s check=%s) processed entity %d in version chunk %d of archetype %s "
+                       "(chunk size %d) in which nothing was written, arrived or departed since it "
+                       "last processed it" % (j, norm(J["req"]), norm(J["check"]), e, k, mask, a["cs"]))
+                if J["check"] & mset(mask):
+                    self.c11.append((i, msg))
+                else:
+                    self.known_outside.append((i, msg + " — the archetype has none of the checked components"))
         for (mask, k) in chunks:
             a = self.arch[mask]
             members = a["ents"][k * a["cs"]:(k + 1) * a["cs"]]
@@ -535,22 +543,31 @@ def gen_job(rng, j, vf_bias=0.7):
         opt = "".join(c for c in COMPS if c not in req and rng.random() < 0.2) or "-"
         pool = (req + opt).replace("-", "")
         write = "".join(c for c in pool if rng.random() < 0.4) or "-"
-    r = rng.random()
-    if r < vf_bias and req != "-":
+    # avoid predicate of the open finding key=check-outside-archetype: the check mask never names a component
+    # outside the required mask (so every matched archetype has every checked component)
+    if rng.random() < vf_bias + 0.1 and req != "-":
         check = "".join(c for c in req if rng.random() < 0.6) or req[0]        # non-empty subset of req
-    elif r < vf_bias + 0.15:
-        check = "-"                                                            # unfiltered job
     else:
-        check = rand_mask(rng, True, COMPS, 0.4)                               # may leave the required mask
+        check = "-"                                                            # unfiltered job
     return "job %d req=%s write=%s check=%s opt=%s kind=%s" % (j, req, write, check, opt, kind)
+
+
+def rand_bounds(rng, top):
+    """(min, max) of a chunk-size function: both, a minimum only (max = 0) or a maximum only (min = 0)"""
+    r = rng.random()
+    a = rng.randint(1, top)
+    if r < 0.2:
+        return a, 0
+    if r < 0.3:
+        return 0, a
+    return a, rng.randint(a, top)
 
 
 def gen_chunk_cfg(rng, contradictory_p=0.15):
     lines = ["chunkdefault %d" % rng.randint(1, 9)]
     for _ in range(rng.choice([0, 0, 1, 1, 2, 3])):
         m = rand_mask(rng, rng.random() < 0.85, COMPS, 0.35)
-        a = rng.randint(1, 9)
-        b = rng.randint(a, 9)
+        a, b = rand_bounds(rng, 9)
         lines.append("chunkfn %s %d %d" % (m, a, b))
     if rng.random() < contradictory_p:
         m = rand_mask(rng, True, COMPS, 0.4)
@@ -677,16 +694,15 @@ def gen_chunk_configs(rng, n):
         lines = ["chunkdefault %d" % rng.randint(1, 12)]
         for _ in range(rng.randint(0, 5)):
             m = rand_mask(rng, rng.random() < 0.9, COMPS, 0.35)
-            a = rng.randint(1, 12)
-            b = rng.randint(a, 12)
+            a, b = rand_bounds(rng, 12)
             lines.append("chunkfn %s %d %d" % (m, a, b))
         masks = rng.sample(all_masks, rng.randint(3, 15))
         for idx, m in enumerate(masks):
             if idx and rng.random() < 0.2:
                 lines.append("chunkdefault %d" % rng.randint(1, 12))
             if idx and rng.random() < 0.2:
-                a = rng.randint(1, 12)
-                lines.append("chunkfn %s %d %d" % (rand_mask(rng, True, COMPS, 0.35), a, rng.randint(a, 12)))
+                a, b = rand_bounds(rng, 12)
+                lines.append("chunkfn %s %d %d" % (rand_mask(rng, True, COMPS, 0.35), a, b))
             lines.append("create %s" % m)
             if rng.random() < 0.3:
                 lines.append("create %s" % m)
@@ -769,6 +785,7 @@ def run_check(ctx, prop, corpus_dir, batches, oracle_attr):
     tie_breaks = []
     reported = {"oracle": 0, "crash": 0, "tie": 0}
     per_batch = {}
+    known_seen = [0, 0]      # histories showing the known pattern, violation already reported
 
     corpus = []
     if os.path.isdir(corpus_dir):
@@ -799,6 +816,16 @@ def run_check(ctx, prop, corpus_dir, batches, oracle_attr):
                     ctx.violation("\n".join(small), "%s: harness did not survive the history (%s) — failed observation"
                                   % (prop, r.crash))
                 continue
+            if oracle_attr == "c11" and r.oracle.known_outside and not r.crash:
+                i, msg = r.oracle.known_outside[0]
+                known_seen[0] += 1
+                if not ctx.known(KNOWN_OUTSIDE_KEY,
+                                 "a job whose check mask names a component the matched archetype lacks is never "
+                                 "quiescent: " + msg) and known_seen[1] == 0:
+                    known_seen[1] = 1
+                    ctx.violation("\n".join(r.ops),
+                                  "C11 violated on the implementation at op %d (no open known finding `%s` in "
+                                  "known_findings.txt covers it): %s" % (i, KNOWN_OUTSIDE_KEY, msg))
             bad = getattr(r.oracle, oracle_attr)
             if bad:
                 if reported["oracle"] < 3:
@@ -862,5 +889,6 @@ def run_check(ctx, prop, corpus_dir, batches, oracle_attr):
                           "correspondence Model/Versions.lean <-> implementation broke (%d of %d histories): %s"
                           % (len(tie_breaks), evaluations, what), no_input=True)
 
-    return {"evaluations": evaluations, "nontrivial": len(nontrivial), "samples": samples, "hist": hist,
+    return {"known_outside_histories": known_seen[0],
+            "evaluations": evaluations, "nontrivial": len(nontrivial), "samples": samples, "hist": hist,
             "stats": total, "tie_breaks": len(tie_breaks), "searched": searched, "per_batch": per_batch}
